@@ -228,3 +228,27 @@ Theorem ref_split_correct l ls r :
   l = concat (map (fun s => s ++ [10]) ls) ++ r
   /\ Forall (fun s => ~ In 10 s) ls /\ ~ In 10 r.
 Proof. intros H. exact (ref_split_sound [] l ls r (fun x => x) H). Qed.
+
+(* decode_eof called repeatedly on ANY buffer (complete lines still in it — what Framed does when the transport reports
+   EOF before the buffered bytes were ever decoded, e.g. a Framed built from parts with a pre-filled read buffer):
+   the lines of the reference splitter, then the tail *)
+Lemma decode_eof_loop_spec : forall fuel src,
+  (length src + 2 <= fuel)%nat ->
+  decode_eof_loop fuel src =
+  let '(its, r) := ref_lines src in Some (its ++ ref_eof_tail r, if ends_cr r then [13] else []).
+Proof.
+  induction fuel as [|f IH]; intros src Hlen; [lia|].
+  destruct (split_lf src) as [[a r]|] eqn:E.
+  - cbn [decode_eof_loop]. unfold decode_eof, decode. rewrite E.
+    pose proof (split_lf_shorter _ _ _ E) as Hr. rewrite IH by lia.
+    unfold ref_lines. rewrite (ref_split_some [] _ _ _ E).
+    destruct (ref_split [] r) as [ls t]. reflexivity.
+  - pose proof (split_lf_none _ E) as Hn.
+    rewrite (decode_eof_loop_tail (S f) src Hn) by lia.
+    unfold ref_lines. rewrite (ref_split_none [] _ E). reflexivity.
+Qed.
+
+Theorem decode_all_eof_spec src :
+  decode_all_eof src =
+  let '(its, r) := ref_lines src in Some (its ++ ref_eof_tail r, if ends_cr r then [13] else []).
+Proof. apply decode_eof_loop_spec. lia. Qed.
